@@ -364,3 +364,66 @@ class GCControl:
         gc.collect()
         if self._was:
             gc.enable()
+
+
+# ---------------------------------------------------------------------------
+# Module-level mutable state of synkit modules (per simulated process)
+# ---------------------------------------------------------------------------
+
+
+class ModuleState:
+    """Every simulated process (the parent of each run, each simulated pool worker, the scratch
+    'process' that computes references) gets its own copy of the module-level mutable containers
+    (dict / list / set / weak dict ...) of the loaded synkit modules, taken from their import-time
+    value.  On the unchanged tree there are none, so this costs nothing; it closes the abstraction
+    gap "simulated workers share the parent's module-level state" for code that introduces e.g. a
+    module-level memo, and makes every run start from import-time state (replay purity)."""
+
+    _TYPES = None
+
+    def __init__(self) -> None:
+        self.snap: Dict[Any, Any] = {}
+        self.scanned = False
+
+    def scan(self) -> None:
+        import collections
+        import copy
+        if ModuleState._TYPES is None:
+            ModuleState._TYPES = (dict, list, set, collections.OrderedDict, collections.defaultdict,
+                                  collections.Counter, collections.deque, weakref.WeakKeyDictionary,
+                                  weakref.WeakValueDictionary)
+        for name, mod in list(sys.modules.items()):
+            if mod is None or not (name == "synkit" or name.startswith("synkit.")):
+                continue
+            for k, v in list(getattr(mod, "__dict__", {}).items()):
+                if k.startswith("__") or (name, k) in self.snap:
+                    continue
+                if type(v) in ModuleState._TYPES:
+                    try:
+                        self.snap[(name, k)] = copy.deepcopy(v)
+                    except Exception:
+                        pass
+        self.scanned = True
+
+    def fresh(self) -> Dict[Any, Any]:
+        import copy
+        if not self.scanned:
+            self.scan()
+        return {key: copy.deepcopy(v) for key, v in self.snap.items()}
+
+    def bind(self, state: Dict[Any, Any]) -> None:
+        for (name, k), v in state.items():
+            mod = sys.modules.get(name)
+            if mod is not None:
+                setattr(mod, k, v)
+
+    def current(self) -> Dict[Any, Any]:
+        out = {}
+        for (name, k) in self.snap:
+            mod = sys.modules.get(name)
+            if mod is not None and k in mod.__dict__:
+                out[(name, k)] = mod.__dict__[k]
+        return out
+
+
+MODSTATE = ModuleState()
